@@ -185,17 +185,17 @@ class Ctx:
         t = time.time()
         if isinstance(claim, SBool):
             e = z3.simplify(claim.e)
-            if z3.is_true(e):
-                ob = Obligation(name, 'discharged', info=info, path=list(self.taken))
+            if z3.is_true(e):   # decided by simplification: no solver query
+                ob = Obligation(name, 'discharged', info=info, path=list(self.taken), backend='simplify')
                 self.obligations.append(ob)
-                STATS.by_backend['z3'] += 1
+                STATS.by_backend['simplify'] = STATS.by_backend.get('simplify', 0) + 1
                 return ob
             r = self._check(z3.Not(e))
         elif isinstance(claim, bool) or claim is None:
-            if claim:
-                ob = Obligation(name, 'discharged', info=info, path=list(self.taken))
+            if claim:   # the claim evaluated to a concrete True on this path (the path condition is still symbolic)
+                ob = Obligation(name, 'discharged', info=info, path=list(self.taken), backend='eval')
                 self.obligations.append(ob)
-                STATS.by_backend['z3'] += 1
+                STATS.by_backend['eval'] = STATS.by_backend.get('eval', 0) + 1
                 return ob
             r = self._check()
         else:
